@@ -1,18 +1,36 @@
 #!/bin/bash
-# usage: tools/seed_matrix.sh [quick|thorough]  -> writes /verif/seeded/RESULTS.md
-# Runs every seeded change against the check of its own property (and prints the result).
+# usage: tools/seed_matrix.sh [quick|thorough] [name-filter-regex]  -> writes /verif/seeded/RESULTS.md
+# Runs every seeded change against the check of its own property; a change its own check
+# misses is then run against the checks listed for it in ALSO (cross-property detection).
 cd /verif
 tier=${1:-quick}
+filter=${2:-.}
 out=/verif/seeded/RESULTS.md
-echo "# Seeded changes vs. the check of their property ($tier tier, $(date -u +%FT%TZ), /repo $(git -C /repo log --format=%h -1))" > $out
+declare -A ALSO=(
+  [C05-ws-init-timeout-reader-leak]="C11"
+  [C12-writejson-pooled-buffer]="C07"
+  [C09-cache-before-validation]="C03"
+  [C10-pong-skips-write-lock]="C11"
+  [C01-collectfields-aliases-ast-slice]="C06"
+  [C01-dispatch-exits-early-when-ctx-done]="C06"
+  [C04-ws-recover-skips-cleanup]="C11 C05"
+  [C04-semaphore-slot-leak-on-element-panic]="C05"
+  [C04-deferred-invalids-on-parent]="C13"
+  [C15-querycache-key-collapses-whitespace]="C07"
+)
+echo "# Seeded changes vs. the checks ($tier tier, $(date -u +%FT%TZ), /repo $(git -C /repo log --format=%h -1))" > $out
 echo >> $out
-echo "| seed | property | result | first signature |" >> $out
+echo "| seed | check | result | first signature |" >> $out
 echo "|---|---|---|---|" >> $out
 for d in seeded/C*/; do
   name=$(basename $d); prop=${name%%-*}
-  res=$(tools/try_seed.sh $d/patch.diff $prop $tier 2>&1)
-  r=$(echo "$res" | grep "^RESULT" | sed 's/^RESULT [^:]*: //')
-  sig=$(echo "$res" | grep "signature:" | head -1 | sed 's/^ *signature: //' | cut -c1-90)
-  echo "| $name | $prop | $r | $sig |" >> $out
-  echo "$name: $r"
+  echo "$name" | grep -Eq "$filter" || continue
+  for p in $prop ${ALSO[$name]}; do
+    res=$(tools/try_seed.sh $d/patch.diff $p $tier 2>&1)
+    r=$(echo "$res" | grep "^RESULT" | sed 's/^RESULT [^:]*: //')
+    sig=$(echo "$res" | grep "signature:" | head -1 | sed 's/^ *signature: //' | cut -c1-90 | tr '|' '/')
+    echo "| $name | $p | $r | $sig |" >> $out
+    echo "$name [$p]: $r"
+    case "$r" in DETECTED*) break;; esac
+  done
 done
